@@ -27,67 +27,12 @@ func vC43_ptell(x *producerController, ctx *ReceiveContext, to *PID, message any
 	vRD_record(to, message)
 }
 
-var vC43_ids = [4]string{"m0", "m1", "m2", "m3"}
-
-// an arbitrary volatile producer-controller state satisfying the representation invariant
-//
-//	0 <= confirmedSeq <= currentSeq, unconfirmed = the contiguous ascending sequences (confirmedSeq, currentSeq]
-//
-// handshake at rest is Idle, Credit or StoredAck (Store and Accept complete synchronously without a durable queue)
-func vC43_producerState(prod, cc *PID) *producerController {
-	x := &producerController{producer: prod, consumerName: "consumer", retryInterval: time.Second, queueRetryAttempts: 1,
-		queueRetryBackoff: time.Second, sessionID: "S", generation: 1}
-	x.deliveryConfirmation = vNondetBool("deliveryConfirmation")
-	if vNondetBool("registered") {
-		x.consumerController = cc
-		x.registrationNonce = "N"
-	}
-	confirmed := vNondetInt64("confirmedSeq")
-	n := vNondetInt("unconfirmedLen")
-	vAssume(confirmed >= 0 && confirmed < 1<<62 && n >= 0 && n <= 3)
-	x.confirmedSeq = confirmed
-	x.persistedConfirmedSeq = confirmed
-	x.currentSeq = confirmed + int64(n)
-	for i := 0; i < n; i++ {
-		x.unconfirmed = append(x.unconfirmed, UnconfirmedMessage{messageID: vC43_ids[i], seq: confirmed + 1 + int64(i),
-			payload: ReliablePayload{bytes: []byte{vNondetByte("payload")}}})
-	}
-	x.demandUpTo = vNondetInt64("demandUpTo")
-	x.windowSpan = vNondetInt64("windowSpan")
-	vAssume(x.demandUpTo >= 0 && x.windowSpan >= 0)
-	switch vChoose("handshake", 3) {
-	case 1:
-		x.handshake = producerHandshakeCredit
-		x.token = "T"
-	case 2:
-		vAssume(x.currentSeq >= 1)
-		x.handshake = producerHandshakeStoredAck
-		x.token = "T"
-		x.pendingMessageID = vC43_ids[vChoose("pendingID", 4)]
-		x.pendingSeq = x.currentSeq
-		x.pendingPayload = ReliablePayload{bytes: []byte{vNondetByte("pendingPayload")}}
-		x.storedMessage = &Stored{sessionID: "S", token: "T", messageID: x.pendingMessageID, seq: x.pendingSeq, endpoint: prod, controller: prod}
-	}
-	if vNondetBool("hasCompleted") {
-		x.lastCompletedToken = "T0"
-		x.lastCompletedMessageID = vC43_ids[vChoose("completedID", 4)]
-	}
-	return x
-}
-
-func vC43_str2(name, a, b string) string {
-	if vNondetBool(name) {
-		return a
-	}
-	return b
-}
-
 // One arbitrary message handled by the real producerController.Receive from an arbitrary valid state.
 func vC43_producer() {
 	vRD_reset()
 	vC43_emitted = 0
 	prod, self, cc, other := vRD_pid("p"), vRD_pid("s"), vRD_pid("c"), vRD_pid("o")
-	x := vC43_producerState(prod, cc)
+	x := vRD_producerState(prod, cc)
 	preDemand, preCurrent, preConfirmed, preHandshake := x.demandUpTo, x.currentSeq, x.confirmedSeq, x.handshake
 	preCC, preNonce := x.consumerController, x.registrationNonce
 
@@ -104,7 +49,7 @@ func vC43_producer() {
 	kind := vChoose("kind", 7)
 	switch kind {
 	case 0:
-		m, err := commands.VRegisterConsumer(vC43_str2("nonceIsCurrent", "N", "N2"))
+		m, err := commands.VRegisterConsumer(vRD_str2("nonceIsCurrent", "N", "N2"))
 		vAssume(err == nil)
 		msg = m
 		switch vChoose("resolved", 3) {
@@ -118,23 +63,23 @@ func vC43_producer() {
 	case 1:
 		sessionCur, nonceCur := vNondetBool("sessionIsCurrent"), vNondetBool("nonceIsCurrent")
 		reqConfirmed, reqUpTo = vNondetInt64("reqConfirmed"), vNondetInt64("reqUpTo")
-		m, err := commands.VRequest(vC43_pick(sessionCur, "S", "S0"), vC43_pick(nonceCur, "N", "N2"), reqConfirmed, reqUpTo, vNondetBool("viaTimeout"))
+		m, err := commands.VRequest(vRD_pick(sessionCur, "S", "S0"), vRD_pick(nonceCur, "N", "N2"), reqConfirmed, reqUpTo, vNondetBool("viaTimeout"))
 		vAssume(err == nil)
 		msg = m
 		authentic = preCC != nil && sender == preCC && sessionCur && nonceCur && preNonce == "N"
 	case 2:
 		sessionCur, nonceCur := vNondetBool("sessionIsCurrent"), vNondetBool("nonceIsCurrent")
 		reqConfirmed = vNondetInt64("ackConfirmed")
-		m, err := commands.VAck(vC43_pick(sessionCur, "S", "S0"), vC43_pick(nonceCur, "N", "N2"), reqConfirmed)
+		m, err := commands.VAck(vRD_pick(sessionCur, "S", "S0"), vRD_pick(nonceCur, "N", "N2"), reqConfirmed)
 		vAssume(err == nil)
 		msg = m
 		authentic = preCC != nil && sender == preCC && sessionCur && nonceCur && preNonce == "N"
 	case 3:
-		msg = &Produced{sessionID: vC43_str2("sessionIsCurrent", "S", "S0"), token: vC43_str2("tokenIsCurrent", "T", "T0"),
-			messageID: vC43_ids[vChoose("producedID", 4)], payload: &vRDMsg{data: []byte{vNondetByte("producedPayload")}}}
+		msg = &Produced{sessionID: vRD_str2("sessionIsCurrent", "S", "S0"), token: vRD_str2("tokenIsCurrent", "T", "T0"),
+			messageID: vRD_ids[vChoose("producedID", 4)], payload: &vRDMsg{data: []byte{vNondetByte("producedPayload")}}}
 	case 4:
-		msg = &StoredAck{sessionID: vC43_str2("sessionIsCurrent", "S", "S0"), token: vC43_str2("tokenIsCurrent", "T", "T0"),
-			messageID: vC43_ids[vChoose("ackedID", 4)]}
+		msg = &StoredAck{sessionID: vRD_str2("sessionIsCurrent", "S", "S0"), token: vRD_str2("tokenIsCurrent", "T", "T0"),
+			messageID: vRD_ids[vChoose("ackedID", 4)]}
 	case 5:
 		msg = &producerControllerTick{generation: uint64(vChoose("tickGeneration", 2))}
 	case 6:
@@ -275,13 +220,13 @@ func vC43_consumerStep(kind int) {
 	var msg any
 	switch kind {
 	case 0:
-		m, err := commands.VRegistrationAck(vC43_str2("sessionIsCurrent", "S", "S2"), vNondetInt64("nextSeq"), vC43_str2("nonceIsCurrent", "N", "N0"))
+		m, err := commands.VRegistrationAck(vRD_str2("sessionIsCurrent", "S", "S2"), vNondetInt64("nextSeq"), vRD_str2("nonceIsCurrent", "N", "N0"))
 		vAssume(err == nil && m.NextSeq() < 1<<62)
 		msg = m
 	case 1:
 		msg = vC43_sequenced("in")
 	case 2:
-		msg = &Confirmed{sessionID: vC43_str2("sessionIsCurrent", "S", "S2"), messageID: vC43_str2("idMatches", "m0", "m1"), seq: vNondetInt64("confirmedMsgSeq")}
+		msg = &Confirmed{sessionID: vRD_str2("sessionIsCurrent", "S", "S2"), messageID: vRD_str2("idMatches", "m0", "m1"), seq: vNondetInt64("confirmedMsgSeq")}
 	case 3:
 		msg = &consumerControllerTick{generation: uint64(vChoose("tickGeneration", 2))}
 		vRD_resolved = pc
@@ -326,15 +271,8 @@ func vC43_sequencedCur(name string, seq int64) *commands.SequencedMessage {
 
 // an arbitrary incoming sequenced message (any sequence, current or stale session)
 func vC43_sequenced(name string) *commands.SequencedMessage {
-	m, err := commands.VSequenced(vC43_str2(name+"SessionIsCurrent", "S", "S2"), "m1", vNondetInt64(name+"Seq"), []byte{vNondetByte(name + "Payload")},
+	m, err := commands.VSequenced(vRD_str2(name+"SessionIsCurrent", "S", "S2"), "m1", vNondetInt64(name+"Seq"), []byte{vNondetByte(name + "Payload")},
 		vNondetBool(name+"Chunked"), vNondetBool(name+"First"), vNondetBool(name+"Last"))
 	vAssume(err == nil)
 	return m
-}
-
-func vC43_pick(c bool, a, b string) string {
-	if c {
-		return a
-	}
-	return b
 }
